@@ -363,6 +363,16 @@ def check(spec):
         x = np.asarray(res.x, float)
         pos = 0
         tot = 0.0
+        if mip and all(s_[0] == "optimal" for s_ in refs):
+            # sub-optimal MIP value: the backend's or EAO's?  (see judge) - another backend behind the same split problem
+            tot_ref = sum(s_[2] for s_ in refs)
+            if float(res.value) < tot_ref - core.tol_val(tot_ref, True) * len(ops):
+                for alt in ["SCIP", "SCIPY"]:
+                    if alt == solver:
+                        continue
+                    r2 = eao_call(r.op.optimize, **dict(kw, solver=alt))
+                    if not is_err(r2) and not isinstance(r2, str) and abs(float(r2.value) - tot_ref) <= core.tol_val(tot_ref, True) * len(ops):
+                        return out.drop("backend_disagreement:%s:suboptimal" % solver)
         for k, (o, (s, xr, vr)) in enumerate(zip(ops, refs)):
             raw = lpkit.from_op(o)
             if soft:
